@@ -525,3 +525,64 @@ M['C01'] = [
     dict(id='c01-benign-find-for-loop', kind='benign', edits=[
         ('src/bintree.c', '        p = bn;\n        if (eq < 0) {\n            bn = bn->l;\n        } else {\n            bn = bn->r;\n        }', '        p = bn;\n        bn = (eq < 0) ? bn->l : bn->r;')]),
 ]
+
+# ------------------------------------------------------------------------------------------- C08
+M['C08'] = [
+    dict(id='c08-insert-overwrites-value', kind='fault', rule=['P1', 'P3'], edits=[
+        ('src/map.c', '    if (i != NULL) {\n        cstl_map_iterator_init(map, i, node);\n    }\n\n    return err;', '    if (err == 1) {\n        node->val = val;\n    }\n    if (i != NULL) {\n        cstl_map_iterator_init(map, i, node);\n    }\n\n    return err;')]),
+    dict(id='c08-insert-found-returns-zero', kind='fault', rule='P1', edits=[
+        ('src/map.c', '    err = 1;\n    node = __cstl_map_find(map, key, &p);', '    err = 0;\n    node = __cstl_map_find(map, key, &p);')]),
+    dict(id='c08-insert-always-allocates', kind='fault', rule='P1', edits=[
+        ('src/map.c', '    if (node == NULL) {\n        /* no existing node in the map, carry on */\n        err = -1;\n        node = cstl_map_node_alloc(key, val);', '    {\n        /* no existing node in the map, carry on */\n        err = -1;\n        node = cstl_map_node_alloc(key, val);')]),
+    dict(id='c08-insert-iterator-stale-on-failure', kind='fault', rule='P1', edits=[
+        ('src/map.c', '    if (i != NULL) {\n        cstl_map_iterator_init(map, i, node);\n    }\n\n    return err;', '    if (i != NULL && err >= 0) {\n        cstl_map_iterator_init(map, i, node);\n    }\n\n    return err;')]),
+    dict(id='c08-erase-ignores-missing-key', kind='fault', rule='P2', edits=[
+        ('src/map.c', '    if (i._ != NULL) {\n        cstl_map_erase_iterator(map, &i);\n        err = 0;\n    }', '    cstl_map_erase_iterator(map, &i);\n    err = 0;')]),
+    dict(id='c08-erase-reports-success-for-absent', kind='fault', rule='P2', edits=[
+        ('src/map.c', '    err = -1;\n    cstl_map_find(map, key, &i);', '    err = 0;\n    cstl_map_find(map, key, &i);')]),
+    dict(id='c08-erase-iterator-not-detached', kind='fault', rule='P2', edits=[
+        ('src/map.c', '        *_i = i;\n        _i->_ = NULL;', '        *_i = i;')]),
+    dict(id='c08-erase-iterator-no-free', kind='fault', rule='P2', edits=[
+        ('src/map.c', '    __cstl_rbtree_erase(&map->t, &n->n);\n    cstl_map_node_free(n);', '    __cstl_rbtree_erase(&map->t, &n->n);')]),
+    dict(id='c08-erase-iterator-free-before-unlink', kind='fault', rule='P2', edits=[
+        ('src/map.c', '    __cstl_rbtree_erase(&map->t, &n->n);\n    cstl_map_node_free(n);', '    cstl_map_node_free(n);\n    __cstl_rbtree_erase(&map->t, &n->n);')]),
+    dict(id='c08-find-updates-key', kind='fault', rule='P3', edits=[
+        ('src/map.c', '    node.key = key;\n    return (void *)cstl_rbtree_find(&map->t, &node, (void *)p);', '    struct cstl_map_node * found;\n    node.key = key;\n    found = (void *)cstl_rbtree_find(&map->t, &node, (void *)p);\n    if (found != NULL) {\n        found->key = key;\n    }\n    return found;')]),
+    dict(id='c08-hint-is-found-node', kind='fault', rule='P4', edits=[
+        ('src/map.c', '            cstl_rbtree_insert(&map->t, node, p);', '            cstl_rbtree_insert(&map->t, node, node);')]),
+    dict(id='c08-hint-from-other-search', kind='fault', rule='P4', edits=[
+        ('src/map.c', '    node.key = key;\n    return (void *)cstl_rbtree_find(&map->t, &node, (void *)p);', '    struct cstl_map_node * q = NULL;\n    node.key = key;\n    if (p != NULL) {\n        *p = NULL;\n    }\n    return (void *)cstl_rbtree_find(&map->t, &node, (void *)&q);')]),
+    dict(id='c08-benign-insert-early-returns', kind='benign', edits=[
+        ('src/map.c', '    err = 1;\n    node = __cstl_map_find(map, key, &p);\n    if (node == NULL) {\n        /* no existing node in the map, carry on */\n        err = -1;\n        node = cstl_map_node_alloc(key, val);\n        if (node != NULL) {\n            cstl_rbtree_insert(&map->t, node, p);\n            err = 0;\n        }\n    }\n\n    if (i != NULL) {\n        cstl_map_iterator_init(map, i, node);\n    }\n\n    return err;',
+         '    node = __cstl_map_find(map, key, &p);\n    if (node != NULL) {\n        err = 1;\n    } else {\n        node = cstl_map_node_alloc(key, val);\n        if (node == NULL) {\n            err = -1;\n        } else {\n            err = 0;\n            cstl_rbtree_insert(&map->t, node, p);\n        }\n    }\n\n    if (i != NULL) {\n        cstl_map_iterator_init(map, i, node);\n    }\n\n    return err;')]),
+    dict(id='c08-benign-erase-uses-internal-find', kind='benign', edits=[
+        ('src/map.c', '    err = -1;\n    cstl_map_find(map, key, &i);\n    if (i._ != NULL) {', '    err = -1;\n    cstl_map_find(map, key, &i);\n    if (!(i._ == NULL)) {')]),
+]
+
+# ------------------------------------------------------------------------------------------- C11
+M['C11'] = [
+    dict(id='c11-revert-int-indices-search', kind='fault', rule='X1', edits=[
+        ('src/array.c', '    ssize_t i, j;\n\n    for (i = 0, j = count - 1; i <= j;) {\n        const ssize_t n = (i + j) / 2;', '    int i, j;\n\n    for (i = 0, j = count - 1; i <= j;) {\n        const int n = (i + j) / 2;')]),
+    dict(id='c11-unsigned-int-count-in-find', kind='fault', rule='X1', edits=[
+        ('src/array.c', '    size_t i;\n\n    for (i = 0; i < count; i++) {\n        if (cmp(ex, __cstl_raw_array_at(arr, size, i), priv) == 0) {', '    unsigned int i;\n    const unsigned int n = count;\n\n    for (i = 0; i < n; i++) {\n        if (cmp(ex, __cstl_raw_array_at(arr, size, i), priv) == 0) {')]),
+    dict(id='c11-default-redispatches-to-unhandled', kind='fault', rule='X2', edits=[
+        ('src/array.c', '            arr, count, size, cmp, priv, swap, tmp,\n            CSTL_SORT_ALGORITHM_DEFAULT);', '            arr, count, size, cmp, priv, swap, tmp,\n            CSTL_SORT_ALGORITHM_HEAP + 1);')]),
+    dict(id='c11-default-does-nothing', kind='fault', rule='X2', edits=[
+        ('src/array.c', '    default:\n        cstl_raw_array_sort(\n            arr, count, size, cmp, priv, swap, tmp,\n            CSTL_SORT_ALGORITHM_DEFAULT);\n        break;', '    default:\n        break;')]),
+    dict(id='c11-heap-case-missing', kind='fault', rule='X2', edits=[
+        ('src/array.c', '    case CSTL_SORT_ALGORITHM_HEAP:\n        cstl_raw_array_hsort(arr, count, size, cmp, priv, swap, tmp);\n        break;', '    case CSTL_SORT_ALGORITHM_HEAP:\n        break;')]),
+    dict(id='c11-sift-down-right-child-unchecked', kind='fault', rule='X3', edits=[
+        ('src/array.c', '        if (r < count\n            && cmp(__cstl_raw_array_at(arr, size, r),', '        if (l < count\n            && cmp(__cstl_raw_array_at(arr, size, r),')]),
+    dict(id='c11-sift-down-off-by-one', kind='fault', rule='X3', edits=[
+        ('src/array.c', '        if (l < count\n            && cmp(__cstl_raw_array_at(arr, size, l),', '        if (l <= count\n            && cmp(__cstl_raw_array_at(arr, size, l),')]),
+    dict(id='c11-find-returns-last-match', kind='fault', rule='X4', edits=[
+        ('src/array.c', '    size_t i;\n\n    for (i = 0; i < count; i++) {\n        if (cmp(ex, __cstl_raw_array_at(arr, size, i), priv) == 0) {\n            return i;\n        }\n    }\n\n    return -1;',
+         '    size_t i;\n    ssize_t f = -1;\n\n    for (i = 0; i < count; i++) {\n        if (cmp(ex, __cstl_raw_array_at(arr, size, i), priv) == 0) {\n            f = i;\n        }\n    }\n\n    return f;')]),
+    dict(id='c11-find-returns-on-nonzero', kind='fault', rule='X4', edits=[
+        ('src/array.c', '        if (cmp(ex, __cstl_raw_array_at(arr, size, i), priv) == 0) {\n            return i;', '        if (cmp(ex, __cstl_raw_array_at(arr, size, i), priv) <= 0) {\n            return i;')]),
+    dict(id='c11-benign-find-while', kind='benign', edits=[
+        ('src/array.c', '    size_t i;\n\n    for (i = 0; i < count; i++) {\n        if (cmp(ex, __cstl_raw_array_at(arr, size, i), priv) == 0) {\n            return i;\n        }\n    }\n\n    return -1;',
+         '    size_t i = 0;\n\n    while (i < count) {\n        if (!cmp(ex, __cstl_raw_array_at(arr, size, i), priv)) {\n            return i;\n        }\n        i++;\n    }\n\n    return -1;')]),
+    dict(id='c11-benign-dispatch-default-direct', kind='benign', edits=[
+        ('src/array.c', '    default:\n        cstl_raw_array_sort(\n            arr, count, size, cmp, priv, swap, tmp,\n            CSTL_SORT_ALGORITHM_DEFAULT);\n        break;', '    default:\n        cstl_raw_array_qsort(arr, count, size, cmp, priv, swap, tmp,\n                             CSTL_SORT_ALGORITHM_QUICK_M);\n        break;')]),
+]
